@@ -181,6 +181,14 @@ def check_assignment(name, cls, vals, basevals=None, dev=()):
             out.append(("encode_foreign_key/%s" % name, "%s.marshall_cdb with a key that is no field at position %d of %r = %s, expected %s"
                         % (name, pos, keys, m4.hex() if isinstance(m4, bytes) else m4, b.hex())))
             break
+    if not dev:
+        # the codec pair called with its argument spelled out under the name the release documents (cdb=...)
+        try:
+            kd, km = cls.unmarshall_cdb(cdb=bytearray(b)), bytes(cls.marshall_cdb(cdb=dict(vals)))
+            if kd != d or km != b:
+                out.append(("codec_keyword/%s" % name, "%s: unmarshall_cdb(cdb=...) / marshall_cdb(cdb=...) give other results than the positional calls" % name))
+        except Exception as e:   # noqa: BLE001
+            out.append(("codec_keyword/%s" % name, "%s: the codec pair called with cdb=... raised %s: %s" % (name, type(e).__name__, e)))
     if len(dev) <= 1:
         # the field values held in other mapping types: a read-only proxy, a row object whose iteration yields values
         import types
